@@ -31,13 +31,20 @@ fn mode_of(s: &str) -> TransportMode {
     }
 }
 
-fn new_pc(mode: &str) -> PeerConnection {
+fn new_pc(mode_media: &str) -> PeerConnection {
+    // "WebRtc" (audio+video), "WebRtc+dc" (data channel only), "WebRtc+avdc" (both)
+    let (mode, media) = mode_media.split_once('+').unwrap_or((mode_media, "av"));
     let mut c = RtcConfiguration::default();
     c.transport_mode = mode_of(mode);
     c.bind_ip = Some("127.0.0.1".into());
     let pc = PeerConnection::new(c);
-    pc.add_transceiver(MediaKind::Audio, TransceiverDirection::SendRecv);
-    pc.add_transceiver(MediaKind::Video, TransceiverDirection::SendRecv);
+    if media != "dc" {
+        pc.add_transceiver(MediaKind::Audio, TransceiverDirection::SendRecv);
+        pc.add_transceiver(MediaKind::Video, TransceiverDirection::SendRecv);
+    }
+    if media != "av" {
+        let _ = pc.create_data_channel("verif", None);
+    }
     pc
 }
 
@@ -293,6 +300,12 @@ fn mutate_changed(d: &mut SessionDescription) {
     use rustrtc::sdp::{Attribute, Direction};
     for m in &mut d.media_sections {
         if m.kind != MediaKind::Audio && m.kind != MediaKind::Video {
+            // a data section: toggle an attribute the stack stores but does not interpret
+            if m.attributes.iter().any(|a| a.key == "max-message-size") {
+                m.attributes.retain(|a| a.key != "max-message-size");
+            } else {
+                m.attributes.push(Attribute::new("max-message-size", Some("262144".into())));
+            }
             continue;
         }
         m.direction = match m.direction {
@@ -511,6 +524,22 @@ async fn exec(run: &mut Run, tm: &Tmpl, call: &Value, id: u64) -> Outcome {
     }
 }
 
+/// "Mode" for audio+video connections, "Mode+media" otherwise.
+fn mode_media_list(p: &Value) -> Vec<String> {
+    let medias: Vec<String> = p["medias"]
+        .as_array()
+        .map(|a| a.iter().map(|m| m.as_str().unwrap().to_string()).collect())
+        .unwrap_or_else(|| vec!["av".to_string()]);
+    let mut out = Vec::new();
+    for m in p["modes"].as_array().unwrap() {
+        for media in &medias {
+            let m = m.as_str().unwrap();
+            out.push(if media == "av" { m.to_string() } else { format!("{m}+{media}") });
+        }
+    }
+    out
+}
+
 fn call_key(c: &Value) -> String {
     format!("{}:{}:{}", c["op"].as_str().unwrap(), c["t"].as_str().unwrap(), c["d"].as_str().unwrap())
 }
@@ -543,6 +572,11 @@ const MAX_ROWS_PER_SIGNATURE: u64 = 5;
 async fn run_program(mode: String, prog: Value, table: Arc<Table>, tm: Arc<Tmpl>) -> (Vec<Value>, Vec<(String, String, String)>, [u64; 4]) {
     let pre = prog["pre"].as_str().unwrap().to_string();
     let calls = prog["calls"].as_array().unwrap().clone();
+    let mode_media = mode.clone();
+    let (mode, media) = match mode_media.split_once('+') {
+        Some((m, x)) => (m.to_string(), x.to_string()),
+        None => (mode_media.clone(), "av".to_string()),
+    };
     let mut out = Vec::new();
     let mut hits = Vec::new();
     let mut counts = [0u64; 4]; // calls ok err panic
@@ -554,7 +588,7 @@ async fn run_program(mode: String, prog: Value, table: Arc<Table>, tm: Arc<Tmpl>
         // (establishing the connection is not what this check is about: retry on a loaded machine)
         let mut pair = None;
         for _attempt in 0..4 {
-            let (pc, peer, _) = make_pair(&mode, "connected", true).await;
+            let (pc, peer, _) = make_pair(&mode_media, "connected", true).await;
             let wait = async {
                 let a = pc.wait_for_connected().await;
                 let b = peer.wait_for_connected().await;
@@ -589,7 +623,7 @@ async fn run_program(mode: String, prog: Value, table: Arc<Table>, tm: Arc<Tmpl>
         _live_peer = Some(peer);
         pc
     } else {
-        establish(&mode, &pre, &tm).await
+        establish(&mode_media, &pre, &tm).await
     };
     let mut run = Run { pc, last_offer: None, last_answer: None };
     // the model's view of the description slots (ids)
@@ -624,7 +658,7 @@ async fn run_program(mode: String, prog: Value, table: Arc<Table>, tm: Arc<Tmpl>
         let st = abs_key(&pre, &m_sig, m_local != 0, m_remote != 0);
         let key = (st.clone(), call_key(call), res.to_string());
         let base = json!({
-            "sub": "jsep", "mode": mode, "pre": pre, "step": i, "call": call["op"], "t": call["t"], "d": call["d"],
+            "sub": "jsep", "mode": mode, "media": media, "pre": pre, "step": i, "call": call["op"], "t": call["t"], "d": call["d"],
             "sig": m_sig, "res": res, "err": err, "failure_site": if res == "Err" { failure_site(&err) } else if res == "Panic" { "panic" } else { "-" },
             "program": calls, "before": before, "after": after,
         });
@@ -728,8 +762,8 @@ fn main() {
         // templates per (mode, pre), built once from real peer objects
         let mut tmpls: HashMap<(String, String), Arc<Tmpl>> = HashMap::new();
         for p in &programs {
-            for m in p["modes"].as_array().unwrap() {
-                let k = (m.as_str().unwrap().to_string(), p["pre"].as_str().unwrap().to_string());
+            for m in mode_media_list(p) {
+                let k = (m, p["pre"].as_str().unwrap().to_string());
                 if !tmpls.contains_key(&k) {
                     let t = make_templates(&k.0, &k.1).await;
                     tmpls.insert(k, Arc::new(t));
@@ -739,8 +773,7 @@ fn main() {
         let sem = Arc::new(tokio::sync::Semaphore::new(jobs * 2));
         let mut handles = Vec::new();
         for p in programs {
-            for m in p["modes"].as_array().unwrap().clone() {
-                let mode = m.as_str().unwrap().to_string();
+            for mode in mode_media_list(&p) {
                 let tm = tmpls[&(mode.clone(), p["pre"].as_str().unwrap().to_string())].clone();
                 let permit = sem.clone().acquire_owned().await.unwrap();
                 let table = table.clone();
